@@ -131,4 +131,64 @@ theorem trans_sub_uncovered (st : PState) (lit : Option String) (asg : Bool)
     (h : ∀ s ∈ sites, s.covers st = false) : (trans st (.word lit asg)).sub = none := by
   cases st <;> simp [sites] at h <;> simp [trans, transCore] <;> (repeat' split) <;> rfl
 
+/-! ### the ORDER of the token-taking calls in every parser function
+
+  `AliasTables.takeFlows` is, for every function of yash-syntax/src/parser/*.rs that takes a token itself, the order
+  and nesting of its `take_token_raw` (`r`) / `take_token_auto(&[kws])` (`a[kws]`) / `take_token_manual(flag)`
+  (`m(flag)`) calls and of its calls of other token-taking parser functions (`@`), in source order: `*( )` loop body,
+  `?( )` conditional block, `{x|y}` match arms (sorted).  `modelFlows` is what the automaton `trans` was transcribed
+  from; beside every entry: the transitions of `trans` that stand for it (proved in `trans_successors`). -/
+def modelFlows : List (String × String) := [
+  -- `A (&&|'||' newline* A)*`: after the operator (and newlines) a command starts: `&&`/`||`/newline → cmd0
+  ("and_or_list", "@*(r*(@@))"),
+  -- `(` raw: arrOpen → arr; then auto in a loop: word → arr, newline → arr, `)` → pre
+  ("array_values", "r*(a[])"),
+  -- `case` raw → caseSubj; subject auto[] → caseIn; (newline* auto[in])* : newline → caseIn, `in` → casePat0; items; `esac` raw → afterComp
+  ("case_command", "ra[]*(@a[in])@r"),
+  -- first token manual(false) in a loop [casePat0: word → caseSep, `(` → casePat1]; after `(`: auto[esac] [casePat1 → caseSep];
+  -- loop: separator auto[] [caseSep: `)` → cmd0, `|` → casePatN], pattern auto[] [casePatN → caseSep]; body; `;;` raw → casePat0
+  ("case_item", "*(@m(false)){-|a[esac]}*(a[]{-|a[]})@?(r)"),
+  -- `do` raw → cmd0; list; `done` raw → afterComp
+  ("do_clause", "r@r"),
+  -- `elif` raw → cmd0; `then` raw → cmd0
+  ("elif_then_clause", "r@r@?(r)"),
+  -- `for` raw → forName; name; values; body
+  ("for_loop", "r@@@"),
+  -- newline* then `do` clause, else manual(false): forBody: newline → forBody, `do` → cmd0, other word → err
+  ("for_loop_body", "*(@@m(false))"),
+  -- forName: word → forIn true
+  ("for_loop_name", "a[]"),
+  -- forIn: `;` (first line) raw → forBody, `do` → (not taken), newline → forIn false, `in` raw → forWords, other manual(false) → err;
+  -- then auto[] in a loop: forWords: word → forWords, `;`/newline → forBody
+  ("for_loop_values", "*({-|@|m(false)|r})*(a[])"),
+  -- `{` raw → cmd0 … `}` raw → afterComp
+  ("grouping", "r@r"),
+  -- `<<` / `<<-` raw → redirH; operand
+  ("here_doc_redirection_body", "r@"),
+  -- `if` → cmd0, `then` → cmd0, `elif`…, `else` → cmd0, `fi` → afterComp
+  ("if_command", "r@r@?(r)@?(r@?(r))r"),
+  -- `;` / `&` raw → cmd0
+  ("list", "@*(r*(@))"),
+  -- newline raw (reads the pending here-document bodies)
+  ("newline_and_here_doc_contents", "r"),
+  -- redirection operator raw → redir; operand
+  ("normal_redirection_body", "r@"),
+  -- `!` raw → cmd0; `|` raw (newline*) → cmd0
+  ("pipeline", "@{-|r*(@{-|r})}*(r*(@@{-|r}))"),
+  -- IO_NUMBER raw: stays in the simple command (cmd0 → pre, one → args); then the body
+  ("redirection", "{-|r}@"),
+  -- redir r / redirH r d: word → retState r
+  ("redirection_operand", "a[]"),
+  -- `(` raw: one → fnClose; `)` auto[]: fnClose → fnBody; loop: newline*, compound command, else manual(false): fnBody
+  ("short_function_definition", "ra[]*(@@{-|m(false)})"),
+  -- loop: redirection, then manual(words.is_empty()): cmd0/pre/one/args, then array values
+  ("simple_command", "*(@m(words.is_empty())@)"),
+  -- `(` raw → cmd0 … `)` raw → afterComp
+  ("subshell", "r@r"),
+  ("until_loop", "r@?(r)@{-|r}"),
+  ("while_loop", "r@?(r)@{-|r}")
+]
+
+theorem flows_generated : (modelFlows.map (·.2)).isPerm AliasTables.takeFlows = true := by decide +kernel
+
 end YashModel.Alias
